@@ -298,3 +298,53 @@ VERIF_HARNESS(c10_l1_no_response_mcast) {
   if (is_mcast && has_resource && per_resource && cls == 5 && (flags & COAP_RESOURCE_FLAGS_LIB_DIS_MCAST_SUPPRESS_5_XX) && !(flags & COAP_RESOURCE_FLAGS_LIB_DIS_MCAST_SUPPRESS_4_XX)) VERIF_REACH("L1m 5.xx allowed by its own flag");
 #endif
 }
+
+/* ---- S4 (used by C07): a request that arrives AGAIN while its separate response is still pending (the handler parked it with
+ * coap_register_async: delay 0 = until the application triggers it, or a deadline in the future) must not reach the handler a second
+ * time: a Confirmable duplicate is (re-)acknowledged with an empty ACK, a Non-confirmable one is ignored. Once the deadline has
+ * passed the request is passed up (that is how libcoap re-runs the handler for the delayed response). */
+#ifndef ASYNC_KIND
+#define ASYNC_KIND 0       /* 0: delay 0 (indefinite), 1: deadline in the future, 2: deadline passed */
+#endif
+VERIF_HARNESS(c10_s4_async_dup) {
+  ne_init();
+  ne_sess.type = COAP_SESSION_TYPE_SERVER;
+  VERIF_IN(uint16_t, mid);
+  VERIF_IN(uint64_t, now);
+  VERIF_IN(uint64_t, deadline);
+  VERIF_IN_BUF(tok, 4);
+  VERIF_ASSUME(now >= 1 && now < (1ull << 40) && deadline >= 1 && deadline < (1ull << 41));
+#if ASYNC_KIND == 1
+  VERIF_ASSUME(deadline > now);
+#elif ASYNC_KIND == 2
+  VERIF_ASSUME(deadline <= now);
+#endif
+  env_now = now;
+  res_a = coap_resource_init(&path_a, 0);
+  coap_register_request_handler(res_a, COAP_REQUEST_GET, h_handler);
+  res_unknown = NULL; res_proxy = NULL;
+  h_calls = h_unknown_calls = h_proxy_calls = 0;
+  coap_pdu_t *req = coap_pdu_init((coap_pdu_type_t)QTYPE, COAP_REQUEST_CODE_GET, mid, 256);
+  coap_add_token(req, 4, tok);
+  coap_add_option(req, COAP_OPTION_URI_PATH, 1, (const uint8_t *)"a");
+  coap_pdu_encode_header(req, COAP_PROTO_UDP);
+  /* state left by the first delivery: the handler registered the request for a separate response */
+  coap_async_t *a = coap_register_async_lkd(&ne_sess, req, 0);
+  VERIF_ASSUME(a != NULL);
+  a->delay = ASYNC_KIND == 0 ? 0 : deadline;
+  ne_tx_count = 0;
+  /* the same request datagram arrives again (the empty ACK was lost / the network duplicated it) */
+  coap_dispatch(&ne_ctx, &ne_sess, req);
+#if ASYNC_KIND != 2
+  VERIF_ASSERT(h_calls + h_unknown_calls + h_proxy_calls == 0, "S4 a request whose separate response is pending is not handed to the handler again");
+#if QTYPE == T_CON
+  VERIF_ASSERT(ne_tx_count == 1 && ne_tx_len[0] == 4 && ((ne_tx_first[0][0] >> 4) & 3) == COAP_MESSAGE_ACK && ne_tx_first[0][1] == 0 &&
+               (uint16_t)((ne_tx_first[0][2] << 8) | ne_tx_first[0][3]) == mid, "S4 the duplicate Confirmable request is acknowledged again with an empty ACK carrying its message id");
+#else
+  VERIF_ASSERT(ne_tx_count == 0, "S4 a duplicate Non-confirmable request is ignored while the response is pending");
+#endif
+#else
+  VERIF_ASSERT(h_calls == 1, "S4 once the delay has expired the request is passed to the handler (once)");
+#endif
+  VERIF_REACH("S4 end");
+}
